@@ -7,7 +7,8 @@
     Result: every template atom of every coarse node with a fragment has ONE image in the returned graph (the survivor of its
     class, renumbered); the image lists the coarse key and the (fragname, atom) pair - a merged atom lists every coarse key of its
     class and nothing else; images of bonded template atoms are equal or adjacent, and two images are adjacent only if members of
-    their classes were bonded; every returned heavy atom that records a coarse key is the image of a template atom of that node. *)
+    their classes were bonded; when the coarse keys are distinct every atom of the squashed graph (= every returned atom that hydrogen
+    completion did not add) that records a coarse key is the image of a template atom of that node (CopyOnto). *)
 From Coq Require Import String.
 From Coq Require Import List Ascii ZArith Bool Lia Permutation.
 From CGV Require Import Base.PyBase Base.PyVal Base.NxGraph Gen.HydroGen Resolve.Bonding Resolve.BondingDefs Resolve.GraphOps
@@ -16,7 +17,7 @@ From CGV Require Resolve.SortGraphProofs Hydro.Squash Hydro.Hydrogens Hydro.Rebu
      Compose.RebuildWf Compose.CutSorted Dialect.ReturnedCar Dialect.ReturnedAnnot Hydro.QuotientDefs Hydro.QuotientProofs Hydro.QuotientAttrs
      Hydro.NumTotal Hydro.SquashTotal Hydro.SquashTotalAny Hydro.ShareCutTotal.
 From CGV Require Import Compose.GraphFacts Compose.GraphAdj Resolve.EdgeCopyGen Resolve.BondedCopy Resolve.WfMerged Resolve.CoarseCopy
-     Resolve.AllAtomCopy Resolve.SquashedCopy.
+     Resolve.AllAtomCopy Resolve.SquashedCopy Resolve.CopyOnto.
 From CGV Require Import Hydro.QuotientDefs.
 Import ListNotations.
 Open Scope Z_scope.
@@ -207,7 +208,10 @@ Theorem step_squashed_returned legacy aa fd prev car fo : tmpl_dict fd -> wf_att
          has_edge (fo_mol fo) (sg (rho (fo_m2 fo) (cf0 a))) (sg (rho (fo_m2 fo) (cf0 b))) = true) /\
       (forall a b, In a (node_keys frag) -> In b (node_keys frag) ->
          has_edge (fo_mol fo) (sg (rho (fo_m2 fo) (cf0 a))) (sg (rho (fo_m2 fo) (cf0 b))) = true ->
-         exists p q, rho (fo_m2 fo) p = rho (fo_m2 fo) (cf0 a) /\ rho (fo_m2 fo) q = rho (fo_m2 fo) (cf0 b) /\ has_edge (fo_m2 fo) p q = true).
+         exists p q, rho (fo_m2 fo) p = rho (fo_m2 fo) (cf0 a) /\ rho (fo_m2 fo) q = rho (fo_m2 fo) (cf0 b) /\ has_edge (fo_m2 fo) p q = true) /\
+      (NoDup (node_keys (fo_meta fo)) -> forall x l, In x (node_keys (fo_m3 fo)) ->
+         node_get (fo_mol fo) (sg x) (S "fragid") = Some (VList l) -> In (VInt (nk mn)) l ->
+         exists a, In a (node_keys frag) /\ rho (fo_m2 fo) (cf0 a) = x).
 Proof.
   intros Hd Hwa Hnd H. unfold resolve_step_full in H. cbv zeta in H.
   destruct (resolve_disconnected fd _) as [[m1 fg1]|] eqn:E1; cbn [bind] in H; [|discriminate H].
@@ -247,10 +251,10 @@ Proof.
     rewrite Hc in Hp. inversion Hp. eauto. }
   exists sg. split; [exact SInj|]. split; [exact SEdge|].
   intros pre mn post fv name frag Em Hf Hl.
-  destruct (bonded_edges_copy fd meta m1 fg1 legacy aa m2 fg2 Hd E1 E2 Hwe pre mn post fv name frag Em Hf Hl) as (cf0 & Inj0 & Hn0 & He0).
+  destruct (bonded_copy_onto fd meta m1 fg1 legacy aa m2 fg2 Hd E1 E2 Hwe pre mn post fv name frag Em Hf Hl) as (cf0 & Inj0 & Hn0 & He0 & Onto0).
   assert (forall t, In t (node_keys frag) -> In (cf0 t) (node_keys m2)) as Hin2.
   { intros t Ht. unfold node_keys in Ht. apply in_map_iff in Ht as [n [<- Hn]]. eapply node_get_some_in. exact (proj1 (Hn0 n Hn)). }
-  exists cf0. split; [exact Inj0|]. split; [|split].
+  exists cf0. split; [exact Inj0|]. split; [|split; [|split]].
   - intros n Hn. assert (In (nk n) (node_keys frag)) as Hk by (unfold node_keys; now apply in_map).
     destruct (Hn0 n Hn) as [A [B Ck]]. pose proof (Hin2 _ Hk) as Hp. set (p := cf0 (nk n)) in *. pose proof (R3 p Hp) as Hy. set (y := rho m2 p) in *.
     split; [exact Hp|]. split; [exact Hy|].
@@ -294,4 +298,17 @@ Proof.
     rewrite (QuotientProofs.has_edge_dir _ _ _ W2). unfold qedge. apply andb_true_iff. split.
     + apply negb_true_iff, Z.eqb_neq. intros X. subst q. apply negb_true_iff, Z.eqb_neq in Hne. apply Hne. now rewrite <- A, <- B.
     + apply existsb_exists. exists (p, q). split; [exact Hin'|]. cbn [fst snd]. now rewrite !Z.eqb_refl.
+  - intros Nd x l Hx Hg Hl0.
+    assert (~ In (S "fragid") tail_keys) as Tf by (intros X; vm_compute in X; intuition discriminate).
+    destruct (nattrs_in m3 x Hx) as [ax Nax]. destruct (ML x ax Nax) as [Fx _].
+    assert (node_get m7 (sg x) (S "fragid") = Some (VList (merged_lists Fl plan x))) as Hg2
+      by (apply (SAttr x _ _ Hx Tf); rewrite node_get_nattrs, Nax; exact Fx).
+    rewrite Hg in Hg2. inversion Hg2; subst l.
+    assert (rho m2 x = x) as Rx by (rewrite K3 in Hx; apply filter_In in Hx as [_ Hx]; now apply Z.eqb_eq in Hx).
+    destruct (merged_lists_from plan (proj1 (plan_removed_once (bang_items m2) [] I)) Fl x _ (survivor_not_removed m2 x Rx) Hl0) as [q [Hq Pq]].
+    unfold Fl, ShareCutTotal.lists_fn in Hq. destruct (nattrs m2 q) as [aq|] eqn:Nq; [|destruct Hq].
+    destruct (aget (S "fragid") aq) as [vq|] eqn:Eq; [|destruct Hq]. destruct vq; try destruct Hq.
+    assert (node_get m2 q (S "fragid") = Some (VList l)) as Gq by (rewrite node_get_nattrs, Nq; exact Eq).
+    destruct (Single q l Gq) as [c ->]. destruct Hq as [Ec|[]]. inversion Ec; subst c.
+    destruct (Onto0 Nd q Gq) as [a [Ha Ea]]. exists a. split; [exact Ha|]. rewrite <- Ea. exact Pq.
 Qed.
